@@ -559,7 +559,100 @@ fn pipeline_ends(ctx: &mut Ctx, rng: &mut crate::rng::Rng, _i: u64) {
     run::end_case();
 }
 
+/// capture() and communicate() pipe stdout on the caller's behalf only when neither output stream was configured;
+/// whatever the caller did configure is wired as requested and what was left alone is inherited.
+fn capture_defaults(ctx: &mut Ctx, rng: &mut crate::rng::Rng, i: u64) {
+    use subprocess::{Exec, NullFile};
+    run::begin_case();
+    let dir = ctx.scratch("c05d");
+    let exe = spawn::report_exe(ctx, &dir, "d", "x");
+    let settings = ["unset", "Pipe", "File", "NullFile", "Merge"];
+    // (stdout, stderr): one of them configured, or none
+    let combos: [(usize, usize); 9] = [(0, 0), (0, 1), (0, 2), (0, 3), (0, 4), (1, 0), (2, 0), (3, 0), (2, 4)];
+    let (so, se) = combos[(i % 9) as usize];
+    let mk = |name: &str| -> File {
+        let p = dir.join(name);
+        std::fs::write(&p, b"....").unwrap();
+        std::fs::OpenOptions::new().read(true).write(true).open(&p).unwrap()
+    };
+    let fout = mk("out-file");
+    let ferr = mk("err-file");
+    let id = |f: &File| f.metadata().map(|m| (m.dev(), m.ino())).unwrap();
+    let (out_id, err_id) = (id(&fout), id(&ferr));
+    let own = |n: i32| std::fs::metadata(format!("/proc/self/fd/{}", n)).map(|m| (m.dev(), m.ino())).unwrap_or((0, 0));
+    let (own1, own2) = (own(1), own(2));
+    let mut e = Exec::cmd(&exe);
+    e = match so { 1 => e.stdout(Redirection::Pipe), 2 => e.stdout(fout), 3 => e.stdout(NullFile), _ => e };
+    e = match se { 1 => e.stderr(Redirection::Pipe), 2 => e.stderr(ferr), 3 => e.stderr(NullFile), 4 => e.stderr(Redirection::Merge), _ => e };
+    if rng.chance(300) {
+        e = e.clone();
+    }
+    let via_capture = rng.chance(500);
+    let m = run::monitored(move || -> Result<(bool, bool), String> {
+        if via_capture {
+            e.capture().map(|_| (true, true)).map_err(|e| e.to_string())
+        } else {
+            let mut c = e.communicate().map_err(|e| e.to_string())?;
+            let (o, er) = c.read().map_err(|e| e.to_string())?;
+            Ok((o.is_some(), er.is_some()))
+        }
+    });
+    ctx.count("spawn_attempts", 1);
+    ctx.count("captures_with_partly_configured_outputs", 1);
+    let combo = format!("stdout={}/stderr={}/{}", settings[so], settings[se], if via_capture { "capture" } else { "communicate" });
+    ctx.distinct(&format!("capdef|{}", combo));
+    let wit = |extra: J| J::obj().set("configured", J::s(&combo)).set("result", J::s(&format!("{:?} {:?}", m.result, m.panic))).set("detail", extra);
+    let rep = match (&m.result, spawn::get_report(&exe, 3000)) {
+        (Some(Ok(_)), Some(r)) => r,
+        _ => {
+            ctx.violation(&format!("C05/capture-defaults/failed/{}", combo), "a valid capture/communicate did not run the command", wit(J::Null));
+            run::end_case();
+            return;
+        }
+    };
+    ctx.count("children_inspected", 1);
+    let fd = |k: i32| rep.fds.iter().find(|f| f.fd == k).cloned();
+    let null_id = std::fs::metadata("/dev/null").map(|m| (m.dev(), m.ino())).unwrap();
+    let piped_by_default = so == 0 && se == 0;
+    // what stdout must be
+    let want1: Option<(u64, u64)> = match so { 0 if piped_by_default => None, 0 => Some(own1), 1 => None, 2 => Some(out_id), _ => Some(null_id) };
+    let got1 = fd(1);
+    let ok1 = match (&got1, want1) {
+        (Some(f), None) => f.pipe_ino().is_some(),
+        (Some(f), Some(idw)) => (f.dev, f.ino) == idw,
+        _ => false,
+    };
+    if !ok1 {
+        ctx.violation(&format!("C05/capture-defaults/stdout/{}", combo), "the child's stdout is not what the configuration says (piped for the caller only when neither output was configured; otherwise as configured, or inherited)", wit(J::s(&format!("{:?}", got1.as_ref().map(|f| f.target.clone())))));
+    }
+    let want2: Option<(u64, u64)> = match se { 0 => Some(own2), 1 => None, 2 => Some(err_id), 3 => Some(null_id), _ => want1.or(Some((0, 0))) };
+    let got2 = fd(2);
+    let ok2 = match (&got2, want2, se) {
+        // merged: the same object as stdout, whatever that is
+        (Some(f), _, 4) => got1.as_ref().map(|g| (g.dev, g.ino) == (f.dev, f.ino)).unwrap_or(false),
+        (Some(f), None, _) => f.pipe_ino().is_some(),
+        (Some(f), Some(idw), _) => (f.dev, f.ino) == idw,
+        _ => false,
+    };
+    if !ok2 {
+        ctx.violation(&format!("C05/capture-defaults/stderr/{}", combo), "the child's stderr is not what the configuration says", wit(J::s(&format!("{:?}", got2.map(|f| f.target)))));
+    }
+    // communicate(): a stream is reported iff it was piped
+    if let Some(Ok((has_out, has_err))) = &m.result {
+        if !via_capture {
+            let exp_out = piped_by_default || so == 1;
+            let exp_err = se == 1;
+            if *has_out != exp_out || *has_err != exp_err {
+                ctx.violation(&format!("C05/exposure/capture-defaults/{}", combo), &format!("communicate().read() reported stdout={} stderr={}, piped were stdout={} stderr={}", has_out, has_err, exp_out, exp_err), wit(J::Null));
+            }
+        }
+    }
+    run::end_case();
+}
+
 pub fn run(ctx: &mut Ctx) {
+    let ncd = ctx.n(180, 3600);
+    ctx.family("capture-defaults", ncd, capture_defaults);
     let npl = ctx.n(300, 6000);
     ctx.family("pipeline-ends", npl, pipeline_ends);
     ctx.max("combinations_total", 125);
